@@ -790,7 +790,7 @@ func (p *Parser) arg() (Term, error) {
 	if arg, err := p.atom(); err == nil {
 		if p.operators.defined(arg) {
 			p.backup()
-			quoted := p.current().kind == tokenQuoted
+			quoted := p.current().kind == tokenQuoted || p.current().kind == tokenDoubleQuotedList
 			_, _ = p.next()
 			// Check if this atom is not followed by its own arguments.
 			switch t, _ := p.next(); t.kind {
